@@ -83,6 +83,150 @@ fn semi_constraints(repo: &Path) -> Result<String, String> {
     ))
 }
 
+/// C05: what each collision path of `core-relations/src/table/mod.rs` stores when the merge
+/// function reports a change: for every `if <merge>(.., cur, new, &mut scratch) { .. }` the buffer
+/// handed to the first `add_row` / `overwrite_row_shared` in the then-branch.
+fn collision_sites(repo: &Path) -> Result<String, String> {
+    use quote::ToTokens;
+    let src = std::fs::read_to_string(repo.join("core-relations/src/table/mod.rs")).map_err(|e| e.to_string())?;
+    let file = syn::parse_file(&src).map_err(|e| e.to_string())?;
+    fn norm(e: &syn::Expr) -> String {
+        let mut t = e.to_token_stream().to_string().replace(' ', "");
+        for pre in ["&mut", "&"] {
+            if let Some(r) = t.strip_prefix(pre) {
+                t = r.to_string();
+            }
+        }
+        t.strip_prefix("self.").map(|x| x.to_string()).unwrap_or(t)
+    }
+    fn is_merge_callee(e: &syn::Expr) -> bool {
+        let t = e.to_token_stream().to_string().replace(' ', "");
+        matches!(t.as_str(), "(self.merge)" | "(merge)" | "merge_fn" | "self.merge" | "merge")
+    }
+    struct FirstStore {
+        found: Option<String>,
+    }
+    impl<'ast> Visit<'ast> for FirstStore {
+        fn visit_expr_method_call(&mut self, m: &'ast syn::ExprMethodCall) {
+            if self.found.is_none() && (m.method == "add_row" || m.method == "overwrite_row_shared") {
+                if let Some(a) = m.args.last() {
+                    self.found = Some(norm(a));
+                }
+            }
+            syn::visit::visit_expr_method_call(self, m);
+        }
+    }
+    struct V {
+        cur_fn: String,
+        sites: Vec<(String, String)>,
+        merge_calls: usize,
+        forwarders: usize,
+    }
+    impl V {
+        fn scan_macro(&mut self, mac: &syn::Macro) {
+            // macro_rules! name { () => {{ .. }} }: parse the innermost brace group as a block
+            fn groups(ts: proc_macro2::TokenStream, out: &mut Vec<proc_macro2::Group>) {
+                for tt in ts {
+                    if let proc_macro2::TokenTree::Group(g) = tt {
+                        out.push(g);
+                    }
+                }
+            }
+            let mut gs = Vec::new();
+            groups(mac.tokens.clone(), &mut gs);
+            for g in gs {
+                if g.delimiter() != proc_macro2::Delimiter::Brace {
+                    continue;
+                }
+                if let Ok(b) = syn::parse2::<syn::Block>(g.stream()) {
+                    let saved = self.cur_fn.clone();
+                    self.cur_fn = format!("{saved}/macro");
+                    self.visit_block(&b);
+                    self.cur_fn = saved;
+                }
+            }
+        }
+    }
+    impl<'ast> Visit<'ast> for V {
+        fn visit_impl_item_fn(&mut self, f: &'ast syn::ImplItemFn) {
+            let saved = std::mem::replace(&mut self.cur_fn, f.sig.ident.to_string());
+            syn::visit::visit_impl_item_fn(self, f);
+            self.cur_fn = saved;
+        }
+        fn visit_item_mod(&mut self, m: &'ast syn::ItemMod) {
+            if m.ident == "tests" {
+                return;
+            }
+            syn::visit::visit_item_mod(self, m);
+        }
+        fn visit_item_macro(&mut self, m: &'ast syn::ItemMacro) {
+            self.scan_macro(&m.mac);
+        }
+        fn visit_stmt_macro(&mut self, m: &'ast syn::StmtMacro) {
+            self.scan_macro(&m.mac);
+        }
+        fn visit_expr_call(&mut self, c: &'ast syn::ExprCall) {
+            if is_merge_callee(&c.func) && c.args.len() >= 3 {
+                self.merge_calls += 1;
+            }
+            syn::visit::visit_expr_call(self, c);
+        }
+        fn visit_expr_closure(&mut self, cl: &'ast syn::ExprClosure) {
+            // `|cur, new, out| (merge)(.., cur, new, out)`: a forwarder that keeps the argument order
+            if let syn::Expr::Call(c) = &*cl.body {
+                if is_merge_callee(&c.func) && c.args.len() >= 3 && cl.inputs.len() == 3 {
+                    let n = c.args.len();
+                    let params: Vec<String> = cl.inputs.iter().map(|p| p.to_token_stream().to_string().replace(' ', "")).collect();
+                    let args: Vec<String> = (n - 3..n).map(|i| norm(&c.args[i])).collect();
+                    if params == args {
+                        self.forwarders += 1;
+                    }
+                }
+            }
+            syn::visit::visit_expr_closure(self, cl);
+        }
+        fn visit_expr_if(&mut self, e: &'ast syn::ExprIf) {
+            if let syn::Expr::Call(c) = &*e.cond {
+                if is_merge_callee(&c.func) && c.args.len() >= 3 {
+                    let n = c.args.len();
+                    let cur = norm(&c.args[n - 3]);
+                    let new = norm(&c.args[n - 2]);
+                    let scratch = norm(&c.args[n - 1]);
+                    let mut fs = FirstStore { found: None };
+                    fs.visit_block(&e.then_branch);
+                    let kind = match fs.found {
+                        Some(a) if a == scratch => "StoreMerged",
+                        Some(a) if a == new => "StoreIncoming",
+                        Some(a) if a == cur => "StoreCurrent",
+                        _ => "StoreOther",
+                    };
+                    self.sites.push((self.cur_fn.clone(), kind.to_string()));
+                }
+            }
+            syn::visit::visit_expr_if(self, e);
+        }
+    }
+    let mut v = V { cur_fn: String::new(), sites: vec![], merge_calls: 0, forwarders: 0 };
+    v.visit_file(&file);
+    if v.sites.is_empty() {
+        return Err("no merge collision site found in core-relations/src/table/mod.rs".into());
+    }
+    if v.merge_calls != v.sites.len() + v.forwarders {
+        return Err(format!(
+            "{} calls of the table merge function but only {} recognised as `if merge(..) {{ store }}` collision sites and {} as order-preserving forwarding closures",
+            v.merge_calls,
+            v.sites.len(),
+            v.forwarders
+        ));
+    }
+    let mut out = String::from(
+        "(* core-relations/src/table/mod.rs: per collision path, the buffer stored when the merge reports a change *)\nInductive store_kind := StoreMerged | StoreIncoming | StoreCurrent | StoreOther.\nDefinition collision_sites : list (string * store_kind) := [",
+    );
+    out.push_str(&v.sites.iter().map(|(f, k)| format!("(\"{}\"%string, {})", f, k)).collect::<Vec<_>>().join("; "));
+    out.push_str("].\n");
+    Ok(out)
+}
+
 /// C20: inventory of hash-container aliases (with their hashers) and of files that use the
 /// randomly seeded `std::collections::Hash{Map,Set}` / `RandomState` in non-test code.
 fn hash_inventory(repo: &Path) -> Result<String, String> {
@@ -256,6 +400,17 @@ pub fn generate(repo: &Path) -> (String, Vec<String>) {
         Err(e) => {
             out.push_str(&format!("(* hash_inventory FAILED: {} *)\n", e.replace("*)", "* )")));
             rep.push(format!("{{\"item\":\"Facts.hash_inventory\",\"file\":\"workspace sources\",\"ok\":false,\"error\":{:?}}}", e));
+        }
+    }
+    match collision_sites(repo) {
+        Ok(t) => {
+            out.push_str("\n");
+            out.push_str(&t);
+            rep.push("{\"item\":\"Facts.collision_sites\",\"file\":\"core-relations/src/table/mod.rs\",\"ok\":true}".to_string());
+        }
+        Err(e) => {
+            out.push_str(&format!("(* collision_sites FAILED: {} *)\n", e.replace("*)", "* )")));
+            rep.push(format!("{{\"item\":\"Facts.collision_sites\",\"file\":\"core-relations/src/table/mod.rs\",\"ok\":false,\"error\":{:?}}}", e));
         }
     }
     (out, rep)
